@@ -9,7 +9,10 @@ package main
 
 import (
 	"fmt"
+	"go/constant"
 	"go/token"
+	"go/types"
+	"sort"
 	"strings"
 
 	"golang.org/x/tools/go/ssa"
@@ -50,6 +53,7 @@ func runC07(c *Ctx) {
 	c07R2GC(c)
 	c07R2IndexWrapper(c)
 	c07R2IndexAll(c)
+	c07R2Algorithms(c)
 	c07R3(c)
 	c07R4(c)
 }
@@ -131,6 +135,42 @@ func c07EveryIteration(body Edge, header *ssa.BasicBlock, ins ...ssa.Instruction
 
 // ---------------------------------------------------------------- R1: index
 
+// c07MapOfE: v is a load of <root receiver>.<field> seen from node e (the
+// helper's own receiver resolves to the root's receiver).
+func c07MapOfE(v ssa.Value, field string, e *c05Env) bool {
+	u, ok := v.(*ssa.UnOp)
+	if !ok || u.Op != token.MUL || !c05IsFieldAddrOf(u.X, c07GraphT, field) {
+		return false
+	}
+	base := u.X.(*ssa.FieldAddr).X
+	r := e.root()
+	if len(r.Fn.Params) == 0 {
+		return false
+	}
+	w, at := e.up(base)
+	return at.isRoot() && w == ssa.Value(r.Fn.Params[0])
+}
+
+// c07KeyOfE: v (seen from e) is descriptor.FromOCI(x) with x satisfying of.
+func c07KeyOfE(v ssa.Value, e *c05Env, of func(x ssa.Value, at *c05Env) bool) bool {
+	w, at := e.up(v)
+	rs := Roots(c05Unspill(w))
+	if len(rs) == 0 {
+		return false
+	}
+	for _, r := range rs {
+		call, ok := strip(r).(*ssa.Call)
+		if !ok || CalleeName(call) != c07FromOCI || len(call.Call.Args) != 1 {
+			return false
+		}
+		x, xat := at.up(call.Call.Args[0])
+		if !of(x, xat) {
+			return false
+		}
+	}
+	return true
+}
+
 func c07R1Index(c *Ctx) {
 	const R = "C07.R1.inverse-relation"
 	c.Expect(R, 20)
@@ -146,6 +186,7 @@ func c07R1Index(c *Ctx) {
 	}
 	for _, fn := range fns {
 		tn := FnName(fn)
+		root := c05Root(fn)
 		node := c07DescParam(fn)
 		sc := CallsTo(fn, "~/content.Successors")[0]
 		S := ResultOf(sc, 0)
@@ -154,30 +195,39 @@ func c07R1Index(c *Ctx) {
 		if !okSrc {
 			continue
 		}
-		isNodeKey := func(v ssa.Value) bool { return c07IsKeyOf(v, c07IsParam(node)) }
+		isNode := func(x ssa.Value, at *c05Env) bool { return at.isRoot() && c05ParamOf(x) == node }
+		isNodeKey := func(v ssa.Value, e *c05Env) bool { return c07KeyOfE(v, e, isNode) }
 		// nodes[key(node)] = node and successors[key(node)] = fresh set, on every successful path
-		var nodesUpd, succUpd *ssa.MapUpdate
-		var succSet *ssa.Call
-		AllInstrs(fn, func(in ssa.Instruction) {
+		var succSets []ssa.Value
+		nodeRec := c05PassSpec{Instr: func(in ssa.Instruction, e *c05Env) bool {
 			mu, ok := in.(*ssa.MapUpdate)
-			if !ok || !isNodeKey(mu.Key) {
-				return
+			if !ok || !c07MapOfE(mu.Map, "nodes", e) || !isNodeKey(mu.Key, e) {
+				return false
 			}
-			if c07MapOf(mu.Map, "nodes") && c05ParamOf(mu.Value) == node {
-				nodesUpd = mu
+			x, at := e.up(mu.Value)
+			return isNode(x, at)
+		}}
+		succRec := c05PassSpec{Instr: func(in ssa.Instruction, e *c05Env) bool {
+			mu, ok := in.(*ssa.MapUpdate)
+			if !ok || !c07MapOfE(mu.Map, "successors", e) || !isNodeKey(mu.Key, e) {
+				return false
 			}
-			if c07MapOf(mu.Map, "successors") {
-				if n := c07IsSetNew(mu.Value); n != nil {
-					succUpd, succSet = mu, n
+			x, _ := e.up(mu.Value)
+			for _, r := range Roots(x) {
+				if c07IsSetNew(r) == nil {
+					return false
 				}
 			}
-		})
-		okN, okS := nodesUpd != nil, succUpd != nil
+			succSets = append(succSets, x)
+			return true
+		}}
+		nodeCut, succCut := c05PassCut(root, nodeRec), c05PassCut(root, succRec)
+		okN, okS := len(nodeCut.instrs) > 0, len(succCut.instrs) > 0
 		for _, a := range c05MaybeNilAtoms(fn) {
-			if okN && !c05AtomMustPass(a, newCut().Instr(nodesUpd)) {
+			if okN && !c05AtomMustPass(a, nodeCut) {
 				okN = false
 			}
-			if okS && !c05AtomMustPass(a, newCut().Instr(succUpd)) {
+			if okS && !c05AtomMustPass(a, succCut) {
 				okS = false
 			}
 		}
@@ -185,24 +235,16 @@ func c07R1Index(c *Ctx) {
 			ifelse(okN, "nodes[key(node)] = node on every successful path", "a successful index does not record nodes[key(node)] = node: Predecessors of its successors would yield an empty descriptor for it"))
 		c.Check(R, tn+"|fresh-successor-set-recorded", fn.Pos(), okS,
 			ifelse(okS, "successors[key(node)] = set.New() on every successful path", "a successful index does not install a fresh successors[key(node)] set: Remove cannot undo the node's edges (extras after delete)"))
-		// the loop over S
-		var loop *Loop
-		var idx ssa.Value
-		var body Edge
-		for _, l := range Loops(fn) {
-			if r, i, b, _, ok := l.RangeIndex(); ok && SameValue(r, S) {
-				loop, idx, body = l, i, b
-			}
-		}
+		// the loop over S (any loop form)
+		loop, idx, body := c05SliceLoop(fn, func(v ssa.Value) bool { return SameValue(v, S) })
 		if loop == nil {
 			if len(Loops(fn)) == 0 {
 				c.Violation(R, tn+"|loop-over-successors", fn.Pos(), "no loop over the successors: no edge is recorded")
 			} else {
-				c.Undecided(R, tn+"|loop-over-successors", fn.Pos(), "the loop over the successors slice is not a plain `for range successors` (shape not recognised)")
+				c.Undecided(R, tn+"|loop-over-successors", fn.Pos(), "no loop of the index step visits every element of the successors slice (range / index forms are recognised)")
 			}
 			continue
 		}
-		// loop must be executed on every successful path
 		okL := true
 		for _, a := range c05MaybeNilAtoms(fn) {
 			if !c05AtomMustPass(a, newCut().Instr(loop.Header.Instrs[0])) {
@@ -210,63 +252,103 @@ func c07R1Index(c *Ctx) {
 			}
 		}
 		c.Check(R, tn+"|loop-over-successors", blockPos(loop.Header), okL, "every successful path runs the loop over all successors")
-		isElem := func(v ssa.Value) bool {
-			for _, r := range Roots(c05Unspill(v)) {
+		isElem := func(x ssa.Value, at *c05Env) bool {
+			if !at.isRoot() {
+				return false
+			}
+			for _, r := range Roots(c05Unspill(x)) {
 				ld, ok := strip(r).(*ssa.UnOp)
 				if !ok || ld.Op != token.MUL {
 					return false
 				}
 				ia, ok := ld.X.(*ssa.IndexAddr)
-				if !ok || !SameValue(ia.X, S) || ia.Index != idx {
+				if !ok || !SameValue(ia.X, S) || !idx[ia.Index] {
 					return false
 				}
 			}
 			return true
 		}
-		isSuccKey := func(v ssa.Value) bool { return c07IsKeyOf(v, isElem) }
-		var addS, addP []ssa.Instruction
-		for _, call := range Calls(fn, func(string) bool { return true }) {
-			if !c07SetMethod(call, "Add") || !loop.Contains(call.(ssa.Instruction)) {
-				continue
+		isSuccKey := func(v ssa.Value, e *c05Env) bool { return c07KeyOfE(v, e, isElem) }
+		// where must a freshly created predecessor set be stored by: the end of the iteration / of the helper
+		iterEnds := func(e *c05Env) []ssa.Instruction {
+			if e.isRoot() {
+				return []ssa.Instruction{loop.Header.Instrs[0]}
 			}
-			a := call.Common().Args
-			if succSet != nil && SameValue(a[0], succSet) && isSuccKey(a[1]) {
-				addS = append(addS, call.(ssa.Instruction))
+			var out []ssa.Instruction
+			for _, r := range Returns(e.Fn) {
+				out = append(out, r)
 			}
-			if isNodeKey(a[1]) {
-				okRoots := true
-				for _, r := range Roots(a[0]) {
-					r = strip(r)
-					if e, isE := r.(*ssa.Extract); isE {
-						r = e.Tuple
-					}
-					if lk, isL := r.(*ssa.Lookup); isL && c07MapOf(lk.X, "predecessors") && isSuccKey(lk.Index) {
+			return out
+		}
+		addS := c05PassSpec{Instr: func(in ssa.Instruction, e *c05Env) bool {
+			call, ok := in.(*ssa.Call)
+			if !ok || !c07SetMethod(call, "Add") || !isSuccKey(call.Call.Args[1], e) {
+				return false
+			}
+			recv, at := e.up(call.Call.Args[0])
+			if !at.isRoot() {
+				return false
+			}
+			for _, ss := range succSets {
+				if SameValue(recv, ss) {
+					return true
+				}
+			}
+			return false
+		}}
+		addP := c05PassSpec{Instr: func(in ssa.Instruction, e *c05Env) bool {
+			call, ok := in.(*ssa.Call)
+			if !ok || !c07SetMethod(call, "Add") || !isNodeKey(call.Call.Args[1], e) {
+				return false
+			}
+			for _, r := range Roots(call.Call.Args[0]) {
+				r = strip(r)
+				if ex, isE := r.(*ssa.Extract); isE {
+					r = ex.Tuple
+				}
+				if lk, isL := r.(*ssa.Lookup); isL && c07MapOfE(lk.X, "predecessors", e) && isSuccKey(lk.Index, e) {
+					continue
+				}
+				if n := c07IsSetNew(r); n != nil {
+					stored := false
+					AllInstrs(e.Fn, func(in2 ssa.Instruction) {
+						// the fresh set is stored under key(successor) before the iteration ends (order w.r.t. Add is irrelevant: sets are references)
+						mu, ok := in2.(*ssa.MapUpdate)
+						if !ok || !c07MapOfE(mu.Map, "predecessors", e) || !isSuccKey(mu.Key, e) || !SameValue(mu.Value, n) {
+							return
+						}
+						all := true
+						for _, end := range iterEnds(e) {
+							if reach(n.Block(), instrIndex(n)+1, end, newCut().Instr(mu)) {
+								all = false
+							}
+						}
+						if all {
+							stored = true
+						}
+					})
+					if stored {
 						continue
 					}
-					if n := c07IsSetNew(r); n != nil {
-						stored := false
-						AllInstrs(fn, func(in ssa.Instruction) {
-							// the fresh set is stored under key(successor) before the iteration ends (order w.r.t. Add is irrelevant: sets are references)
-							if mu, ok := in.(*ssa.MapUpdate); ok && c07MapOf(mu.Map, "predecessors") && isSuccKey(mu.Key) && SameValue(mu.Value, n) &&
-								!reach(n.Block(), instrIndex(n)+1, loop.Header.Instrs[0], newCut().Instr(mu)) {
-								stored = true
-							}
-						})
-						if stored {
-							continue
-						}
-					}
-					okRoots = false
 				}
-				if okRoots {
-					addP = append(addP, call.(ssa.Instruction))
+				return false
+			}
+			return true
+		}}
+		inLoop := func(ct *cut) []ssa.Instruction {
+			var out []ssa.Instruction
+			for in := range ct.instrs {
+				if loop.Contains(in) {
+					out = append(out, in)
 				}
 			}
+			return out
 		}
-		okA := len(addS) > 0 && c07EveryIteration(body, loop.Header, addS...)
+		sIns, pIns := inLoop(c05PassCut(root, addS)), inLoop(c05PassCut(root, addP))
+		okA := len(sIns) > 0 && c07EveryIteration(body, loop.Header, sIns...)
 		c.Check(R, tn+"|successor-edge-every-iteration", blockPos(body.To), okA,
 			ifelse(okA, "successors[key(node)].Add(key(successor)) runs in every iteration", "an iteration can finish without recording key(successor) in successors[key(node)]: Remove would leave node in that successor's predecessor set (extra after delete)"))
-		okB := len(addP) > 0 && c07EveryIteration(body, loop.Header, addP...)
+		okB := len(pIns) > 0 && c07EveryIteration(body, loop.Header, pIns...)
 		c.Check(R, tn+"|predecessor-edge-every-iteration", blockPos(body.To), okB,
 			ifelse(okB, "predecessors[key(successor)].Add(key(node)) runs in every iteration on the stored set (created and stored when absent)", "an iteration can finish without adding key(node) to the stored predecessors[key(successor)] set: Predecessors(successor) omits node"))
 	}
@@ -282,8 +364,10 @@ func c07R1Remove(c *Ctx) {
 		return
 	}
 	tn := FnName(fn)
+	root := c05Root(fn)
 	node := c07DescParam(fn)
-	isNodeKey := func(v ssa.Value) bool { return c07IsKeyOf(v, c07IsParam(node)) }
+	isNode := func(x ssa.Value, at *c05Env) bool { return at.isRoot() && c05ParamOf(x) == node }
+	isNodeKey := func(v ssa.Value, e *c05Env) bool { return c07KeyOfE(v, e, isNode) }
 	var loop *Loop
 	var key ssa.Value
 	var body Edge
@@ -299,7 +383,7 @@ func c07R1Remove(c *Ctx) {
 				r = e.Tuple
 			}
 			lk, isL := r.(*ssa.Lookup)
-			if !isL || !c07MapOf(lk.X, "successors") || !isNodeKey(lk.Index) {
+			if !isL || !c07MapOfE(lk.X, "successors", root) || !isNodeKey(lk.Index, root) {
 				good = false
 			}
 		}
@@ -318,71 +402,107 @@ func c07R1Remove(c *Ctx) {
 		return
 	}
 	c.OK(R, tn+"|loop-over-own-successors", blockPos(loop.Header), "Remove ranges over successors[key(node)]")
-	isKey := func(v ssa.Value) bool { return strip(v) == key }
-	isEntry := func(v ssa.Value) bool {
-		for _, r := range Roots(v) {
+	isKey := func(v ssa.Value, e *c05Env) bool {
+		w, at := e.up(v)
+		return at.isRoot() && strip(w) == key
+	}
+	isEntry := func(v ssa.Value, e *c05Env) bool {
+		rs := Roots(v)
+		if len(rs) == 0 {
+			return false
+		}
+		for _, r := range rs {
 			r = strip(r)
-			if e, isE := r.(*ssa.Extract); isE {
-				r = e.Tuple
+			if ex, isE := r.(*ssa.Extract); isE {
+				r = ex.Tuple
 			}
 			lk, isL := r.(*ssa.Lookup)
-			if !isL || !c07MapOf(lk.X, "predecessors") || !isKey(lk.Index) {
+			if !isL || !c07MapOfE(lk.X, "predecessors", e) || !isKey(lk.Index, e) {
 				return false
 			}
 		}
 		return true
 	}
-	var dels []ssa.Instruction
-	var entry ssa.Value
-	skipOK := newCut() // an absent / nil entry has nothing to unlink
-	for _, call := range Calls(fn, func(string) bool { return true }) {
-		if c07SetMethod(call, "Delete") && loop.Contains(call.(ssa.Instruction)) && isEntry(call.Common().Args[0]) && isNodeKey(call.Common().Args[1]) {
-			dels = append(dels, call.(ssa.Instruction))
-			entry = call.Common().Args[0]
-			skipOK.Instr(call.(ssa.Instruction))
-			ne, _, _ := NilTests(fn, Aliases(entry))
-			skipOK.Edges(ne...)
-			if ex, isE := strip(entry).(*ssa.Extract); isE {
-				for _, r := range *ex.Tuple.Referrers() {
-					if e1, is1 := r.(*ssa.Extract); is1 && e1.Index == 1 {
-						_, fe := BoolTests(fn, Aliases(e1))
-						skipOK.Edges(fe...)
+	isUnlink := func(in ssa.Instruction, e *c05Env) bool {
+		call, ok := in.(*ssa.Call)
+		return ok && c07SetMethod(call, "Delete") && isEntry(call.Call.Args[0], e) && isNodeKey(call.Call.Args[1], e)
+	}
+	unlink := c05PassSpec{Instr: isUnlink,
+		// an absent / nil entry has nothing to unlink
+		Edges: func(e *c05Env) []Edge {
+			var out []Edge
+			AllInstrs(e.Fn, func(in ssa.Instruction) {
+				if !isUnlink(in, e) {
+					return
+				}
+				entry := in.(*ssa.Call).Call.Args[0]
+				ne, _, _ := NilTests(e.Fn, Aliases(entry))
+				out = append(out, ne...)
+				if ex, isE := strip(entry).(*ssa.Extract); isE {
+					for _, r := range *ex.Tuple.Referrers() {
+						if e1, is1 := r.(*ssa.Extract); is1 && e1.Index == 1 {
+							_, fe := BoolTests(e.Fn, Aliases(e1))
+							out = append(out, fe...)
+						}
 					}
 				}
-			}
+			})
+			return out
+		}}
+	uc := c05PassCut(root, unlink)
+	inLoopN := 0
+	for in := range uc.instrs {
+		if loop.Contains(in) {
+			inLoopN++
 		}
 	}
-	okD := len(dels) > 0 && !reach(body.To, 0, loop.Header.Instrs[0], skipOK)
+	okD := inLoopN > 0 && !reach(body.To, 0, loop.Header.Instrs[0], uc)
 	c.Check(R, tn+"|unlink-every-iteration", blockPos(body.To), okD,
 		ifelse(okD, "predecessors[successorKey].Delete(key(node)) runs in every iteration", "an iteration can finish without deleting key(node) from predecessors[successorKey]: Predecessors(successor) keeps reporting the removed node"))
-	// delete(m.predecessors, k): only the current key, only when its set is empty
+	// delete(m.predecessors, k): only the current key, only when its set is empty — in Remove or in a helper it calls
 	nDel := 0
-	for _, call := range CallsTo(fn, "builtin:delete") {
-		a := call.Common().Args
-		if !c07MapOf(a[0], "predecessors") {
-			continue
+	for _, e := range c05TreeEnvs(root, 3) {
+		for _, call := range CallsTo(e.Fn, "builtin:delete") {
+			a := call.Common().Args
+			if !c07MapOfE(a[0], "predecessors", e) {
+				continue
+			}
+			nDel++
+			var zero []Edge
+			AllInstrs(e.Fn, func(in ssa.Instruction) {
+				if isUnlink(in, e) {
+					zero = append(zero, lenZeroEdges(e.Fn, in.(*ssa.Call).Call.Args[0])...)
+				}
+			})
+			// also `len(entry) > 0` style tests: the false edge of "non-empty"
+			ok := isKey(a[1], e) && len(zero) > 0
+			if ok {
+				if e.isRoot() {
+					ok = loop.Contains(call.(ssa.Instruction)) && !reach(body.To, 0, call.(ssa.Instruction), newCut().Edges(zero...))
+				} else {
+					ok = MustPass(call.(ssa.Instruction), newCut().Edges(zero...))
+				}
+			}
+			c.Check(R, tn+"|entry-dropped-only-when-empty", call.Pos(), ok,
+				ifelse(ok, "delete(predecessors, successorKey) lies behind len(entry)==0 of the same entry", "a predecessors entry is dropped although other predecessors may remain (omissions) or for a different key"))
 		}
-		nDel++
-		ok := loop.Contains(call.(ssa.Instruction)) && isKey(a[1]) && entry != nil &&
-			!reach(body.To, 0, call.(ssa.Instruction), newCut().Edges(lenZeroEdges(fn, entry)...))
-		c.Check(R, tn+"|entry-dropped-only-when-empty", call.Pos(), ok,
-			ifelse(ok, "delete(predecessors, successorKey) lies behind len(entry)==0 of the same entry", "a predecessors entry is dropped although other predecessors may remain (omissions) or for a different key"))
 	}
 	if nDel == 0 {
 		c.OK(R, tn+"|entry-dropped-only-when-empty", fn.Pos(), "Remove never drops predecessors entries")
 	}
 	// finally successors[key(node)] and nodes[key(node)] are deleted
 	for _, fld := range []string{"successors", "nodes"} {
-		var dc ssa.Instruction
-		for _, call := range CallsTo(fn, "builtin:delete") {
-			a := call.Common().Args
-			if c07MapOf(a[0], fld) && isNodeKey(a[1]) && !loop.Contains(call.(ssa.Instruction)) {
-				dc = call.(ssa.Instruction)
+		fld := fld
+		ct := c05PassCut(root, c05PassSpec{Instr: func(in ssa.Instruction, e *c05Env) bool {
+			call, ok := in.(*ssa.Call)
+			if !ok || CalleeName(call) != "builtin:delete" {
+				return false
 			}
-		}
-		ok := dc != nil
+			return c07MapOfE(call.Call.Args[0], fld, e) && isNodeKey(call.Call.Args[1], e) && !(e.isRoot() && loop.Contains(in))
+		}})
+		ok := len(ct.instrs) > 0
 		for _, r := range Returns(fn) {
-			if ok && ReachableFromEntry(r) && !MustPass(r, newCut().Instr(dc)) {
+			if ok && ReachableFromEntry(r) && !MustPass(r, ct) {
 				ok = false
 			}
 		}
@@ -635,49 +755,87 @@ func c07R2Push(c *Ctx) {
 			continue
 		}
 		tn := FnName(fn)
+		root := c05Root(fn)
 		expected := c07DescParam(fn)
-		var ics []ssa.CallInstruction
-		icAl := map[ssa.Value]bool{}
-		for _, ic := range CallsTo(fn, c07Index, c07IdxAll) {
-			if _, isDefer := ic.(*ssa.Defer); isDefer {
-				continue
+		isExpected := func(v ssa.Value, e *c05Env) bool {
+			if expected == nil {
+				return false
 			}
-			a := ic.Common().Args
-			if c05DescSource(a[len(a)-1]) == expected && expected != nil {
-				ics = append(ics, ic)
-				for al := range Aliases(ic.Value()) {
-					icAl[al] = true
-				}
+			w, at := e.up(v)
+			if !at.isRoot() {
+				return false
 			}
+			return c05DescSource(w) == expected
 		}
-		if len(ics) == 0 {
+		type hit struct {
+			call ssa.CallInstruction
+			env  *c05Env
+		}
+		var hits []hit
+		seenHit := map[ssa.Instruction]bool{}
+		spec := c05PassSpec{Success: true,
+			Instr: func(in ssa.Instruction, e *c05Env) bool {
+				call, ok := in.(*ssa.Call)
+				if !ok || (CalleeName(call) != c07Index && CalleeName(call) != c07IdxAll) {
+					return false
+				}
+				a := call.Call.Args
+				if !isExpected(a[len(a)-1], e) {
+					return false
+				}
+				if !seenHit[in] {
+					seenHit[in] = true
+					hits = append(hits, hit{call, e})
+				}
+				return true
+			},
+			Edges: func(e *c05Env) []Edge {
+				var out []Edge
+				if x.skip != "" {
+					te, _, _ := CallTests(e.Fn, "errors.Is", func(call *ssa.Call) bool { return sentinelName(call.Call.Args[1]) == x.skip })
+					out = append(out, te...)
+					// `err == errSkipUnnamed` / switch forms
+					eq, _ := c05EqEdges(e.Fn, func(v ssa.Value) bool { return isErrorType(v.Type()) }, func(v ssa.Value) bool { return sentinelName(v) == x.skip })
+					out = append(out, eq...)
+				}
+				// kinds without outgoing edges need no indexing (R3 ties IsManifest to the kinds Successors decodes)
+				_, notManifest, _ := CallTests(e.Fn, "~/internal/descriptor.IsManifest", func(call *ssa.Call) bool { return isExpected(call.Call.Args[0], e) })
+				return append(out, notManifest...)
+			}}
+		ok := c05SuccessPasses(root, spec)
+		if len(hits) == 0 {
 			c.Violation(R, tn+"|index-on-every-success", fn.Pos(), "Push never indexes the pushed descriptor in the predecessor graph: Predecessors omits every edge of this manifest")
 			continue
 		}
-		ct := newCut().Calls(ics)
-		if x.skip != "" {
-			te, _, _ := CallTests(fn, "errors.Is", func(call *ssa.Call) bool { return sentinelName(call.Call.Args[1]) == x.skip })
-			ct.Edges(te...)
-		}
-		// kinds without outgoing edges need no indexing (R3 ties IsManifest to the kinds Successors decodes)
-		_, notManifest, _ := CallTests(fn, "~/internal/descriptor.IsManifest", func(call *ssa.Call) bool { return c05DescSource(call.Call.Args[0]) == expected })
-		ct.Edges(notManifest...)
-		ok, detail := true, ""
-		for _, a := range c05MaybeNilAtoms(fn) {
-			if icAl[a.Val] || icAl[strip(a.Val)] {
-				continue
+		c.Check(R, tn+"|index-on-every-success", hits[0].call.Pos(), ok,
+			ifelse(ok, "every path to a nil error passes graph.Index(expected)"+ifelse(x.skip != "", " (discarded unnamed content excepted)", ""), "Push can succeed without indexing the pushed node: Predecessors of its successors omit it"))
+		okErr, detail := true, ""
+		for _, h := range hits {
+			r := ErrFlow(h.call, ErrFlowOpts{})
+			if !r.OK {
+				okErr, detail = false, r.Detail
+			} else if detail == "" {
+				detail = r.How
 			}
-			if !c05AtomMustPass(a, ct) {
-				ok, detail = false, "return at "+c.P.Pos(a.Ret.Pos())
+			for e := h.env; e.Call != nil && e.Parent != nil; e = e.Parent {
+				if ErrOf(e.Call) == nil {
+					okErr, detail = false, "the helper "+FnName(e.Fn)+" that indexes has its error discarded at "+c.P.Pos(e.Call.Pos())
+					continue
+				}
+				if r := ErrFlow(e.Call, ErrFlowOpts{Tolerated: ifelseS(x.skip != "", []string{x.skip}, nil)}); !r.OK {
+					okErr, detail = false, r.Detail
+				}
 			}
 		}
-		c.Check(R, tn+"|index-on-every-success", ics[0].Pos(), ok,
-			ifelse(ok, "every path to a nil error passes graph.Index(expected)"+ifelse(x.skip != "", " (discarded unnamed content excepted)", ""), "Push can succeed without indexing the pushed node ("+detail+"): Predecessors of its successors omit it"))
-		for _, ic := range ics {
-			r := ErrFlow(ic, ErrFlowOpts{})
-			c.Check(R, tn+"|index-error-returned", ic.Pos(), r.OK, r.How+r.Detail)
-		}
+		c.Check(R, tn+"|index-error-returned", hits[0].call.Pos(), okErr, detail)
 	}
+}
+
+func ifelseS(b bool, x, y []string) []string {
+	if b {
+		return x
+	}
+	return y
 }
 
 func c07R2Delete(c *Ctx) {
@@ -728,74 +886,139 @@ func c07R2Load(c *Ctx) {
 				graphParam = p
 			}
 		}
-		ias := CallsTo(fn, c07IdxAll)
-		if idxParam == nil || len(ias) == 0 {
+		if idxParam == nil {
+			continue
+		}
+		root := c05Root(fn)
+		hasIA := false
+		for _, e := range c05TreeEnvs(root, 3) {
+			if len(CallsTo(e.Fn, c07IdxAll)) > 0 {
+				hasIA = true
+			}
+		}
+		if !hasIA {
 			continue
 		}
 		n++
 		tn := FnName(fn)
-		var loop *Loop
-		var idx ssa.Value
-		var S ssa.Value
-		var body Edge
-		for _, l := range Loops(fn) {
-			r, i, b, _, ok := l.RangeIndex()
-			if !ok {
-				continue
+		isS := func(v ssa.Value) bool {
+			rs := Roots(v)
+			if len(rs) == 0 {
+				return false
 			}
-			for _, root := range Roots(r) {
-				if u, isU := root.(*ssa.UnOp); isU && u.Op == token.MUL {
-					if fa, isFA := u.X.(*ssa.FieldAddr); isFA && fa.X == ssa.Value(idxParam) && c05FieldNameOf(fa.X.Type(), fa.Field) == "Manifests" {
-						loop, idx, body, S = l, i, b, r
-					}
+			for _, r := range rs {
+				u, isU := r.(*ssa.UnOp)
+				if !isU || u.Op != token.MUL {
+					return false
+				}
+				fa, isFA := u.X.(*ssa.FieldAddr)
+				if !isFA || fa.X != ssa.Value(idxParam) || c05FieldNameOf(fa.X.Type(), fa.Field) != "Manifests" {
+					return false
 				}
 			}
+			return true
 		}
+		loop, idx, body := c05SliceLoop(fn, isS)
 		if loop == nil {
-			c.Undecided(R, tn+"|reindex-every-manifest", fn.Pos(), "no `for range index.Manifests` loop recognised")
+			c.Undecided(R, tn+"|reindex-every-manifest", fn.Pos(), "no loop over every element of index.Manifests recognised (range / index forms)")
 			continue
 		}
-		elems := map[ssa.Value]bool{}
-		AllInstrs(fn, func(in ssa.Instruction) {
-			if ld, ok := in.(*ssa.UnOp); ok && ld.Op == token.MUL {
-				if ia, ok := ld.X.(*ssa.IndexAddr); ok && SameValue(ia.X, S) && ia.Index == idx {
-					elems[ld] = true
+		isElem := func(x ssa.Value, at *c05Env) bool {
+			if !at.isRoot() {
+				return false
+			}
+			rs := Roots(c05Unspill(x))
+			if len(rs) == 0 {
+				return false
+			}
+			for _, r := range rs {
+				ld, ok := strip(r).(*ssa.UnOp)
+				if !ok || ld.Op != token.MUL {
+					return false
+				}
+				ia, ok := ld.X.(*ssa.IndexAddr)
+				if !ok || !isS(ia.X) || !idx[ia.Index] {
+					return false
 				}
 			}
-		})
-		ok := false
-		var theIA ssa.CallInstruction
-		for _, ia := range ias {
-			a := ia.Common().Args
-			d := a[len(a)-1]
-			fromElem := derivesFromAny(d, elems, 0)
-			if !fromElem {
-				// through the per-iteration copy `desc := manifests[i]`
-				for _, r := range Roots(c05Unspill(d)) {
-					if call, isCall := strip(r).(*ssa.Call); isCall && CalleeName(call) == "~/internal/descriptor.Plain" {
-						if sv := c05Unspill(call.Call.Args[0]); elems[sv] {
-							fromElem = true
-						}
-					}
-					if elems[strip(r)] {
-						fromElem = true
-					}
+			return true
+		}
+		var fromElem func(v ssa.Value, e *c05Env, d int) bool
+		fromElem = func(v ssa.Value, e *c05Env, d int) bool {
+			w, at := e.up(v)
+			if isElem(w, at) {
+				return true
+			}
+			if d > 3 {
+				return false
+			}
+			rs := Roots(c05Unspill(w))
+			if len(rs) == 0 {
+				return false
+			}
+			for _, r := range rs {
+				call, isCall := strip(r).(*ssa.Call)
+				if !isCall || CalleeName(call) != "~/internal/descriptor.Plain" || !fromElem(call.Call.Args[0], at, d+1) {
+					return false
 				}
 			}
-			if loop.Contains(ia.(ssa.Instruction)) && fromElem && (graphParam == nil || strip(a[0]) == ssa.Value(graphParam)) {
-				// every iteration either indexes or leaves the function
-				if c07EveryIteration(body, loop.Header, ia.(ssa.Instruction)) {
-					ok = true
-					theIA = ia
+			return true
+		}
+		var ias []ssa.CallInstruction
+		spec := c05PassSpec{Success: true, Instr: func(in ssa.Instruction, e *c05Env) bool {
+			call, ok := in.(*ssa.Call)
+			if !ok || CalleeName(call) != c07IdxAll {
+				return false
+			}
+			a := call.Call.Args
+			if graphParam != nil {
+				if g, at := e.up(a[0]); !at.isRoot() || strip(g) != ssa.Value(graphParam) {
+					return false
 				}
+			}
+			if !fromElem(a[len(a)-1], e, 0) {
+				return false
+			}
+			ias = append(ias, call)
+			return true
+		}}
+		ct := c05PassCut(root, spec)
+		var inLoop []ssa.Instruction
+		for in := range ct.instrs {
+			if loop.Contains(in) {
+				inLoop = append(inLoop, in)
 			}
 		}
+		ok := (len(ct.instrs) > 0 || len(ct.edges) > 0) && !reach(body.To, 0, loop.Header.Instrs[0], ct)
 		c.Check(R, tn+"|reindex-every-manifest", blockPos(loop.Header), ok,
 			ifelse(ok, "every iteration over index.Manifests calls graph.IndexAll for that entry (or returns an error)", "an entry of index.Manifests can be skipped when the layout is (re)opened: its edges are missing from Predecessors after reopen"))
-		if theIA != nil {
-			r := ErrFlow(theIA, ErrFlowOpts{})
-			c.Check(R, tn+"|reindex-error-returned", theIA.Pos(), r.OK, r.How+r.Detail)
+		okErr, detail := true, "the IndexAll error reaches the caller"
+		seen := map[ssa.Instruction]bool{}
+		for _, in := range append(inLoop, func() []ssa.Instruction {
+			var o []ssa.Instruction
+			for _, ia := range ias {
+				o = append(o, ia.(ssa.Instruction))
+			}
+			return o
+		}()...) {
+			if seen[in] {
+				continue
+			}
+			seen[in] = true
+			if r := ErrFlow(in.(ssa.CallInstruction), ErrFlowOpts{}); !r.OK {
+				okErr, detail = false, r.Detail
+			}
 		}
+		for in := range loop.Blocks {
+			for _, x := range in.Instrs {
+				if call, isCall := x.(*ssa.Call); isCall && c05Helper(call, fn) != nil && ErrOf(call) != nil && !seen[x] {
+					if r := ErrFlow(call, ErrFlowOpts{}); !r.OK {
+						okErr, detail = false, r.Detail
+					}
+				}
+			}
+		}
+		c.Check(R, tn+"|reindex-error-returned", blockPos(loop.Header), okErr, detail)
 		// callers pass their own graph
 		for _, g := range c.P.FuncsOfPkg("content/oci") {
 			for _, call := range Calls(g, func(string) bool { return true }) {
@@ -830,9 +1053,18 @@ func c07R2GC(c *Ctx) {
 	for _, fn := range c.P.FuncsOfPkg("content/oci") {
 		for _, G := range CallsTo(fn, "~/internal/graph.NewMemory") {
 			var ias []ssa.CallInstruction
-			for _, ia := range CallsTo(fn, c07IdxAll, c07Index) {
-				if SameValue(ia.Common().Args[0], G.Value()) {
-					ias = append(ias, ia)
+			otherGraph := false
+			for _, e := range c05TreeEnvs(c05Root(fn), 3) {
+				for _, ia := range CallsTo(e.Fn, c07IdxAll, c07Index) {
+					recv, at := e.up(ia.Common().Args[0])
+					if at.isRoot() && SameValue(recv, G.Value()) {
+						ias = append(ias, ia)
+						if CalleeName(ia) != c07IdxAll {
+							otherGraph = true
+						}
+					} else if _, isP := recv.(*ssa.Parameter); !(isP && !at.isRoot()) {
+						otherGraph = true
+					}
 				}
 			}
 			if len(ias) == 0 {
@@ -853,10 +1085,8 @@ func c07R2GC(c *Ctx) {
 				}
 			}
 			// no other graph is indexed into in this function, and roots are indexed transitively
-			for _, ia := range CallsTo(fn, c07IdxAll, c07Index) {
-				if !SameValue(ia.Common().Args[0], G.Value()) || CalleeName(ia) != c07IdxAll {
-					ok = false
-				}
+			if otherGraph && len(CallsTo(fn, "~/internal/graph.NewMemory")) == 1 {
+				ok = false
 			}
 			c.Check(R, tn+"|rebuilt-graph-installed", G.Pos(), ok,
 				ifelse(ok, fmt.Sprintf("the %d IndexAll call(s) fill the new graph and every successful path installs it as s.graph", len(ias)), "GC rebuilds a predecessor graph but does not install it on every successful path, indexes into another graph, or indexes roots without their descendants (Index instead of IndexAll): Predecessors after GC reports removed manifests or misses kept ones"))
@@ -936,12 +1166,19 @@ func c07R2IndexAll(c *Ctx) {
 		c.LostAnchor(R, c07IdxAll)
 		return
 	}
+	// the traversal step: the function of the package (closure, method or plain function) that runs the index
+	// step on its own descriptor parameter and dispatches over the result with syncutil.Go
 	var T *ssa.Function
 	var idxCall ssa.CallInstruction
-	for _, a := range Anons(fn) {
+	for _, a := range c.P.FuncsOfPkg("internal/graph") {
+		if len(CallsTo(a, nGo)) == 0 || len(CallsTo(a, "~/content.Successors")) > 0 {
+			continue
+		}
 		for _, call := range Calls(a, func(string) bool { return true }) {
 			if g := StaticCallee(call); g != nil && fnPkgPath(g) == pkgPath("internal/graph") && len(CallsTo(g, "~/content.Successors")) > 0 {
-				T, idxCall = a, call
+				if d := c07DescParam(a); d != nil && c05ParamOf(call.Common().Args[len(call.Common().Args)-1]) == d {
+					T, idxCall = a, call
+				}
 			}
 		}
 	}
@@ -1056,6 +1293,7 @@ var c07Mutants = []Mutant{
 	{Name: "gc-rebuilt-graph-not-installed", File: "content/oci/oci.go", Old: "\ts.tagResolver = tagResolver\n\ts.graph = graph\n", New: "\ts.tagResolver = tagResolver\n", Expect: "C07.R2.every-push-indexed|(*~/content/oci.Store).gcIndex|rebuilt-graph-installed"},
 	{Name: "indexall-swallows-every-error", File: "internal/graph/memory.go", Old: "\t\t\tif errors.Is(err, errdef.ErrNotFound) {", New: "\t\t\tif errors.Is(err, errdef.ErrNotFound) || err != nil {", Expect: "C07.R2.every-push-indexed|(*~/internal/graph.Memory).IndexAll$1|skips-only-not-found"},
 	{Name: "indexall-no-descent-for-single-successor", File: "internal/graph/memory.go", Old: "\t\tif len(successors) > 0 {", New: "\t\tif len(successors) > 1 {", Expect: "C07.R2.every-push-indexed|(*~/internal/graph.Memory).IndexAll$1|descends-into-all-successors"},
+	{Name: "gc-filter-forgets-sha384", File: "content/oci/oci.go", Old: "\tcase digest.SHA256, digest.SHA512, digest.SHA384:", New: "\tcase digest.SHA256, digest.SHA512:", Expect: "C07.R2.every-push-indexed|~/content/oci.isKnownAlgorithm|gc-knows-every-digest-algorithm"},
 	{Name: "index-wrapper-skips-leaf-kinds", File: "internal/graph/memory.go", Old: "\t_, err := m.index(ctx, fetcher, node)\n\treturn err", New: "\tif node.MediaType == \"\" {\n\t\treturn nil\n\t}\n\t_, err := m.index(ctx, fetcher, node)\n\treturn err", Expect: "C07.R2.every-push-indexed|(*~/internal/graph.Memory).Index|delegates-to-index-step"},
 	// R3
 	{Name: "ismanifest-forgets-docker-manifest-list", File: "internal/descriptor/descriptor.go", Old: "\tcase docker.MediaTypeManifest,\n\t\tdocker.MediaTypeManifestList,\n", New: "\tcase docker.MediaTypeManifest,\n", Expect: "C07.R3.edge-bearing-kinds-persisted"},
@@ -1063,4 +1301,68 @@ var c07Mutants = []Mutant{
 	{Name: "graph-index-under-read-lock", File: "internal/graph/memory.go", Old: "\tm.lock.Lock()\n\tdefer m.lock.Unlock()\n\n\t// index the node", New: "\tm.lock.RLock()\n\tdefer m.lock.RUnlock()\n\n\t// index the node", Expect: "C07.R4.lock-discipline|(*~/internal/graph.Memory).index|"},
 	{Name: "oci-predecessors-without-store-lock", File: "content/oci/oci.go", Old: "\ts.sync.RLock()\n\tdefer s.sync.RUnlock()\n\n\treturn s.graph.Predecessors(ctx, node)", New: "\treturn s.graph.Predecessors(ctx, node)", Expect: "C07.R4.lock-discipline|(*~/content/oci.Store).Predecessors|"},
 	{Name: "graph-predecessors-without-lock", File: "internal/graph/memory.go", Old: "\tm.lock.RLock()\n\tdefer m.lock.RUnlock()\n\n\tkey := descriptor.FromOCI(node)", New: "\tkey := descriptor.FromOCI(node)", Expect: "C07.R4.lock-discipline|(*~/internal/graph.Memory).Predecessors|"},
+}
+
+// c07R2Algorithms: GC forgets every untagged manifest in the rebuilt graph and
+// then sweeps blobs/<alg>/ for the algorithms its filter knows; a supported
+// algorithm missing from the filter leaves manifests stored (Exists/Fetch
+// succeed) that the graph no longer knows: Predecessors omits them for good.
+// Necessary condition: the algorithm filter of the OCI store names every
+// digest algorithm constant go-digest declares (what Digest.Validate accepts).
+func c07R2Algorithms(c *Ctx) {
+	const R = "C07.R2.every-push-indexed"
+	dp := c.P.TypesPkg("github.com/opencontainers/go-digest")
+	if dp == nil {
+		c.LostAnchor(R, "github.com/opencontainers/go-digest")
+		return
+	}
+	var want []string
+	for _, name := range dp.Scope().Names() {
+		k, ok := dp.Scope().Lookup(name).(*types.Const)
+		if !ok {
+			continue
+		}
+		if n, isN := k.Type().(*types.Named); isN && n.Obj().Name() == "Algorithm" && k.Val().Kind() == constant.String {
+			want = append(want, constant.StringVal(k.Val()))
+		}
+	}
+	sort.Strings(want)
+	uniq := want[:0]
+	for i, w := range want {
+		if i == 0 || w != want[i-1] {
+			uniq = append(uniq, w)
+		}
+	}
+	want = uniq
+	isAlg := func(v ssa.Value) bool {
+		n, ok := v.Type().(*types.Named)
+		return ok && n.Obj().Name() == "Algorithm" && n.Obj().Pkg() != nil && n.Obj().Pkg() == dp
+	}
+	n := 0
+	for _, f := range c.P.FuncsOfPkg("content/oci") {
+		if f.Signature.Results().Len() != 1 || !types.Identical(f.Signature.Results().At(0).Type(), types.Typ[types.Bool]) {
+			continue
+		}
+		got := StringConstsComparedWith(f, isAlg)
+		if len(got) == 0 {
+			continue
+		}
+		n++
+		missing := ""
+		have := map[string]bool{}
+		for _, g := range got {
+			have[g] = true
+		}
+		for _, w := range want {
+			if !have[w] {
+				missing += " " + w
+			}
+		}
+		c.Check(R, FnName(f)+"|gc-knows-every-digest-algorithm", f.Pos(), missing == "" && len(want) > 0,
+			ifelse(missing == "", fmt.Sprintf("the algorithm filter accepts every algorithm go-digest declares %v", want),
+				"the algorithm filter used by GC's sweep lacks"+missing+": blobs under that algorithm survive GC while the rebuilt graph has forgotten them — Predecessors permanently omits those manifests"))
+	}
+	if n == 0 {
+		c.OK(R, "~/content/oci|gc-knows-every-digest-algorithm", token.NoPos, "the OCI store has no algorithm filter (every directory is swept or none)")
+	}
 }
